@@ -598,11 +598,39 @@ func runC09(r *run) {
 			a = append(a, "-", "-", hx(out.String()))
 			emit(caseT{"render", a})
 		}
+		// ifequal and ifnotequal are complementary for EVERY pair of operands, whatever
+		// "equal" means for the pair: exactly one of them takes its first branch
+		ops := []string{"nothere", "nil1", "one", "two", "zero", "1", "2", "2.0", "2.5", "f2", "f25", "\"2\"", "\"\"", "sempty", "str", "\"héy\"", "true", "false", "b1", "ws", "w0", "n0", "mp", "m0",
+			"ws.0", "\"b\"", "ns.1", "nil1.x", "-2", "0.0", "0"}
+		cctx := append(append(gctx{}, ctx...), ctxEntry{"nil1", gNil()}, ctxEntry{"f2", gFloat("2.0")}, ctxEntry{"f25", gFloat("2.5")}, ctxEntry{"b1", gBool(true)})
+		for _, a := range ops {
+			for _, b := range ops {
+				src := "{% ifequal " + a + " " + b + " %}E{% else %}N{% endifequal %}|{% ifnotequal " + a + " " + b + " %}N{% else %}E{% endifnotequal %}" +
+					"|{% for q in ns %}{% ifequal " + a + " " + b + " %}e{% endifequal %}{% ifnotequal " + a + " " + b + " %}n{% endifnotequal %}{% endfor %}"
+				emit(caseT{"compl", w.args(src, cctx)})
+			}
+		}
 	}
 	driveCases(r, gen, func(r *run, c caseT) {
 		w, src, ctx := worldFromArgs(c.args)
 		o, _ := w.render(src, false, ctx)
-		id := r.emit(c.op, c.args, o.obs)
+		op := c.op
+		if op == "compl" {
+			op = "render"
+		}
+		id := r.emit(op, c.args, o.obs)
+		if c.op == "compl" {
+			r.nontrivial(c.args[0])
+			if o.err == nil && o.panicked == nil {
+				parts := strings.Split(o.out, "|")
+				if len(parts) != 3 || parts[0] != parts[1] || (parts[2] != "eeee" && parts[2] != "nnnn") || (parts[0] == "E") != (parts[2] == "eeee") {
+					r.reject(id, "ifequal and ifnotequal are not complementary", map[string]any{"template": src, "output": o.out})
+				}
+			} else if o.panicked != nil {
+				r.reject(id, "panic", map[string]any{"template": src, "panic": fmt.Sprint(o.panicked)})
+			}
+			return
+		}
 		if id%997 == 0 {
 			r.sample(map[string]any{"template": src, "observed": o.obs})
 		}
